@@ -18,6 +18,8 @@ import (
 
 	"seehuhn.de/go/pdf"
 	"seehuhn.de/go/pdf/font/cmap"
+	"seehuhn.de/go/pdf/font/dict"
+	"seehuhn.de/go/pdf/graphics/extract"
 )
 
 type node struct {
@@ -58,6 +60,75 @@ type runEnt struct {
 }
 
 type memFile struct{ bytes.Buffer }
+
+// fontFile is a tiny independent "file" holding one composite font whose
+// /Encoding names a predefined CMap: reading it must not change what the
+// package-level CMap cache hands to other readers.
+type fontFile struct {
+	meta pdf.MetaInfo
+	objs map[pdf.Reference]pdf.Native
+}
+
+func (g *fontFile) GetMeta() *pdf.MetaInfo { return &g.meta }
+func (g *fontFile) Get(ref pdf.Reference, _ bool) (pdf.Native, error) {
+	return g.objs[ref], nil
+}
+
+// sharedCMaps: predefined CMaps (other than Identity) named by the test fonts,
+// with a code whose text is known
+var sharedCMaps = []string{"GBKp-EUC-H", "UniJIS-UTF16-H", "90ms-RKSJ-H"}
+
+// extractFont reads a font of kind "A" (CIDFontType0 with a CIDSystemInfo that
+// disagrees with the CMap) or "B" (CIDFontType2 without CIDSystemInfo, which
+// takes registry and ordering from the CMap) and digests what it got.
+func extractFont(kind string, which int) (bool, string) {
+	name := sharedCMaps[which%len(sharedCMaps)]
+	font, cid := pdf.NewReference(1, 0), pdf.NewReference(2, 0)
+	cidDict := pdf.Dict{"Type": pdf.Name("Font"), "Subtype": pdf.Name("CIDFontType2"), "BaseFont": pdf.Name("Test-" + kind)}
+	if kind == "A" {
+		cidDict["Subtype"] = pdf.Name("CIDFontType0")
+		cidDict["CIDSystemInfo"] = pdf.Dict{"Registry": pdf.String("Adobe"), "Ordering": pdf.String("Korea1"), "Supplement": pdf.Integer(2)}
+	}
+	f := &fontFile{meta: pdf.MetaInfo{Version: pdf.V1_7}, objs: map[pdf.Reference]pdf.Native{
+		font: pdf.Dict{"Type": pdf.Name("Font"), "Subtype": pdf.Name("Type0"), "BaseFont": pdf.Name("Test-" + kind),
+			"Encoding": pdf.Name(name), "DescendantFonts": pdf.Array{cid}},
+		cid: cidDict,
+	}}
+	d, err := pdf.Decode(pdf.NewCursor(f), font, extract.Dict)
+	if err != nil {
+		return false, ""
+	}
+	var ros string
+	switch x := d.(type) {
+	case *dict.CIDFontType0:
+		ros = fmt.Sprint(x.ROS)
+	case *dict.CIDFontType2:
+		ros = fmt.Sprint(x.ROS)
+	default:
+		return false, fmt.Sprintf("%T", d)
+	}
+	return true, ros
+}
+
+func predefinedROS(which int) (bool, string) {
+	f, err := cmap.Predefined(sharedCMaps[which%len(sharedCMaps)])
+	if err != nil {
+		return false, ""
+	}
+	return true, fmt.Sprint(f.ROS)
+}
+
+// truth of the package-level state, taken before anything else ran
+var startTruth = map[op][2]string{}
+
+func init() {
+	for i := range sharedCMaps {
+		ok, dig := predefinedROS(i)
+		startTruth[op{"PredefinedROS", i}] = [2]string{fmt.Sprint(ok), dig}
+		ok, dig = extractFont("B", i)
+		startTruth[op{"ExtractFontB", i}] = [2]string{fmt.Sprint(ok), dig}
+	}
+}
 
 func digest(b []byte) string {
 	h := sha256.Sum256(b)
@@ -295,6 +366,15 @@ func (w *world) do(o op) (ok bool, id int, dig string) {
 			return false, 0, ""
 		}
 		return true, 0, ""
+	case "ExtractFontA":
+		ok, dig = extractFont("A", o.Ref)
+		return ok, 0, dig
+	case "ExtractFontB":
+		ok, dig = extractFont("B", o.Ref)
+		return ok, 0, dig
+	case "PredefinedROS":
+		ok, dig = predefinedROS(o.Ref)
+		return ok, 0, dig
 	case "Pair":
 		a, _ := pdf.StoreOrLoadPair(w.x, ref, &node{Self: o.Ref}, &nodeB{Self: o.Ref})
 		return true, w.id(a), ""
@@ -371,8 +451,12 @@ func main() {
 					o = op{"Pair", streams[r.Intn(len(streams))]} // keys nobody decodes
 				default:
 					o = op{"Predefined", r.Intn(4)}
-					if r.Intn(2) == 0 {
+					switch r.Intn(4) {
+					case 0, 1:
 						o = op{[]string{"DecodeNil", "DecodeExclusiveNil", "DecodeExclusiveNil"}[r.Intn(3)], valRefs[r.Intn(len(valRefs))]}
+					case 2:
+						// independent files whose fonts name the same predefined CMap
+						o = op{[]string{"ExtractFontA", "ExtractFontB", "PredefinedROS"}[r.Intn(3)], r.Intn(len(sharedCMaps))}
 					}
 				}
 				progs[g] = append(progs[g], o)
@@ -392,6 +476,10 @@ func main() {
 				}
 				if o.Op == "PredefinedFresh" {
 					solo[o] = [2]string{"true", ""} // a predefined CMap always loads; not executed solo (that would fill the cache)
+					continue
+				}
+				if t, fixed := startTruth[o]; fixed {
+					solo[o] = t // package-level state as it was before any file was read
 					continue
 				}
 				sw := open(data)
